@@ -192,6 +192,8 @@ def statusesStr (sc : Sched) : String :=
 inductive DState where
   | seq (a : Api)
   | sched (sc : Sched)
+  /-- `into_entries_unordered` has consumed the container: nothing can be asked of it any more -/
+  | consumed
 
 def handleSched (sc : Sched) (toks : List String) (line : String) : Sched × String :=
   let sorted := sc.s.kind ≠ .lru
@@ -244,10 +246,14 @@ def handleLine (d : DState) (line : String) : DState × String :=
       match parseCall toks with
       | some c =>
         let (a', r) := a.exec c
-        (.seq a', respStr (a.s.kind ≠ .lru) r ++ " | " ++ snapStr a'.s)
+        let reply := respStr (a.s.kind ≠ .lru) r ++ " | " ++ snapStr a'.s
+        match c, r.res with
+        | .into, .out (.pairs _) => (.consumed, reply)
+        | _, _ => (.seq a', reply)
       | none => (d, "bad-op")
     | .sched sc =>
       let (sc', r) := handleSched sc toks line
       (.sched sc', r)
+    | .consumed => (d, "bad | [] now=0")
 
 end Lockable
